@@ -165,7 +165,7 @@ func run(t *rapid.T) {
 func msgLiteral(marker string) []byte { return machMsg(marker, "remote") }
 
 func TestC06Sequences(t *testing.T) {
-	ev.Checks(100, 500)
+	ev.Checks(150, 1000)
 	rapid.Check(t, run)
 }
 
